@@ -249,8 +249,12 @@ def command_line_runs(ctx):
                  ("--lines", b"".join(b"line%03d\n" % i for i in range(300)), []),
                  ("--symbol", b"".join(b"s%03d;" % i for i in range(96)) + b"tail_without_delimiter", [b"tail_without_delimiter"]),
                  ("--symbol", b"".join(b"s%03d;" % i for i in range(96)) + b"tail_without_delimiter", [b"s010;", b"tail_without_delimiter"]),
-                 ("--char", bytes(range(48, 48 + 70)), [b"A"])]
-        for flag, data, core in cases:
+                 ("--char", bytes(range(48, 48 + 70)), [b"A"]),
+                 # a marked region whose last line ends in CR LF: only the LF is pinned, the CR is an atom like any other
+                 ("--char", b"h\r\n// DDBEGIN\r\nabc37xyz\r\n// DDEND\r\nt\r\n", [b"37"], 9, b"h\r\n// DDBEGIN\r\n37\n// DDEND\r\nt\r\n"),
+                 # every line boundary the loader knows (form feed, U+2028, NEL, FS) separates atoms
+                 ("--lines", b"p1\x0cs1;\n/* page 2 */\x0cstmt2;\nx\xe2\x80\xa8y\nq\xc2\x85r\x1cz\n", [b"stmt2;\n", b"y\n", b"z\n"], 9, None)]
+        for flag, data, core, *more in cases:
             tc = d / "tc.txt"
             tc.write_bytes(data)
             os.environ["C10_CORE"] = b"|".join(core).decode("latin1")
@@ -269,8 +273,12 @@ def command_line_runs(ctx):
             ctx.evaluations += 1
             ctx.bump("command-line-runs")
             n = {"--lines": data.count(b"\n"), "--char": len(data)}.get(flag, data.count(b";") + 1)
+            want = b"".join(core)
+            if more:
+                n = more[0]
+                want = more[1] or want
             tests = lith.test_count
-            if tc.read_bytes() != b"".join(core):
+            if tc.read_bytes() != want:
                 ctx.fail("not-the-core", f"main([{flag}, ...]) on {n} atoms, core {core}: the file holds {tc.read_bytes()[:60]!r}", case)
             if tests > bound(n, len(core)):
                 ctx.fail("too-many-tests", f"main([{flag}, ...]) with default options on {n} atoms, m={len(core)}: {tests} tests > bound {bound(n, len(core))}", case)
